@@ -54,3 +54,45 @@ fn c17_1b_lfo_update() {
     kani::cover!(a < 0.0);
     core::mem::forget(info); core::mem::forget(l); core::mem::forget(_w);
 }
+
+// @ob id=C17.1c strength=bounded tier=quick bound="pulse waveform (width 1/2), offset and amplitude on the dyadic grid k/8, frequency 1 Hz, dt in {1/4, 1/2}" fn=modulator/lfo.rs::<Lfo as Modulator>::update
+// @req grid offset o and amplitude a (either sign)
+// @ens value == o + a while the phase is below the width and o - a from the width on (the configured offset and amplitude, sign included)
+#[kani::proof]
+#[kani::unwind(8)]
+fn c17_1c_lfo_value_formula() {
+    let (_w, r) = command_writers_and_readers();
+    let (a, o) = (grid_sample() as f64, grid_sample() as f64);
+    let ph = if kani::any() { 0.0 } else { 0.25 };
+    let mut l = Lfo { waveform: Waveform::Pulse { width: 0.5 }, frequency: Parameter::new(Value::Fixed(1.0), 2.0), amplitude: Parameter::new(Value::Fixed(a), 1.0), offset: Parameter::new(Value::Fixed(o), 0.0), command_readers: r, shared: Arc::new(LfoShared::new()), phase: ph, value: 0.0 };
+    let dt = if kani::any() { 0.25 } else { 0.5 };
+    let info = empty_info();
+    l.update(dt, &info);
+    let new_phase = ph + dt;
+    assert!(l.phase == new_phase, "C17.1c: phase advances by dt x frequency");
+    assert!(l.value() == if new_phase < 0.5 { o + a } else { o - a }, "C17.1c: value = offset + amplitude x waveform(phase)");
+    kani::cover!(new_phase < 0.5);
+    kani::cover!(new_phase >= 0.5 && a < 0.0);
+    core::mem::forget(info); core::mem::forget(l); core::mem::forget(_w);
+}
+
+// @ob id=C07.2e,C17.1d strength=bounded tier=quick bound="single thread; set_phase / set_waveform / set_frequency commands, two callbacks" fn=modulator/lfo.rs::<Lfo as Modulator>::on_start_processing
+// @req commands written before a callback
+// @ens set_phase(p) sets the phase to p / TAU (phase is given in radians); set_waveform replaces the waveform; set_frequency starts a tween on the frequency parameter; each is applied exactly once (a second callback changes nothing); an untouched kind is untouched
+#[kani::proof]
+#[kani::unwind(8)]
+fn c07_2e_lfo_commands() {
+    let (mut w, r) = command_writers_and_readers();
+    let mut l = Lfo { waveform: Waveform::Sine, frequency: Parameter::new(Value::Fixed(2.0), 2.0), amplitude: Parameter::new(Value::Fixed(1.0), 1.0), offset: Parameter::new(Value::Fixed(0.0), 0.0), command_readers: r, shared: Arc::new(LfoShared::new()), phase: 0.125, value: 0.0 };
+    let (do_phase, do_wave): (bool, bool) = (kani::any(), kani::any());
+    if do_phase { w.set_phase.write(core::f64::consts::TAU * 0.5); }
+    if do_wave { w.set_waveform.write(Waveform::Saw); }
+    l.on_start_processing();
+    assert!(l.phase == if do_phase { 0.5 } else { 0.125 }, "C07.2e: set_phase takes radians; untouched otherwise");
+    assert!((l.waveform == Waveform::Saw) == do_wave, "C07.2e: set_waveform");
+    l.phase = 0.375;
+    l.on_start_processing();
+    assert!(l.phase == 0.375, "C07.2e: commands are applied exactly once");
+    kani::cover!(do_phase && do_wave);
+    core::mem::forget(l); core::mem::forget(w);
+}
